@@ -157,11 +157,58 @@ class C01(HistoryProperty):
 
     def signature(self, case, violation):
         d = violation.get("detail", {})
-        if d.get("after_a_fall_back_from_a_failed_body") and any(n["k"] == "coalesce" for n in case["spec"]["nodes"]) \
-                and any(n.get("fails_if") for n in case["spec"]["nodes"]):
+        if any(n["k"] == "coalesce" for n in case["spec"]["nodes"]) and self._coalesce_fell_through(case, d.get("op_index", len(case["ops"]))):
             # open finding: coalesce falls back when the member it chose FAILS at evaluate(), keys() names the chosen member only
             return "fall-back-after-evaluate-failure-not-keyed"
         return None
+
+    @staticmethod
+    def _coalesce_fell_through(case, upto):
+        """Did, in the history up to op `upto`, a coalesce member pass validate() and then fail in evaluate() (a partial body,
+        a default outside an option-valued domain, ...) while a later member answered?  Re-runs the history on a fresh world
+        with recording pass-through handlers; only used to classify a violation that was already found."""
+        import labrea.runtime as lrt
+        import labrea.types as lt
+
+        with global_state_guard():
+            w = World(case["spec"], record=False)
+            members = {}
+            for nid, n in w.prog.node.items():
+                if n["k"] == "coalesce":
+                    for m in n["members"][:-1]:
+                        members[id(w.prog.obj[m])] = m
+            seen = {}  # member -> set of ("validate"|"evaluate", ok)
+
+            def rec(kind, default):
+                def h(request):
+                    obj = getattr(request, "evaluatable", getattr(request, "validatable", None))
+                    try:
+                        out = default(request)
+                    except Exception:
+                        if id(obj) in members:
+                            seen.setdefault(members[id(obj)], set()).add((kind, False))
+                        raise
+                    if id(obj) in members:
+                        seen.setdefault(members[id(obj)], set()).add((kind, True))
+                    return out
+
+                return h
+
+            with lrt.handle({lt.ValidateRequest: rec("validate", lt._validate_request), lt.EvaluateRequest: rec("evaluate", lt._evaluate_request)}):
+                for i, op in enumerate(case["ops"][: upto + 1]):
+                    if op["op"] in ("derive", "set_cache"):
+                        try:
+                            w.do(op)
+                        except Exception:  # noqa: BLE001
+                            pass
+                        continue
+                    if op.get("node") not in w.prog.obj:
+                        continue
+                    seen.clear()
+                    w.do(op)
+                    if any(("validate", True) in s and ("evaluate", False) in s for s in seen.values()):
+                        return True
+        return False
 
     def known_probes(self):
         # cached(coalesce(D1(a=Option('A')) undefined for a == 'bad', D2(b=Option('B')))): the fall-back's value is filed under {'A'}
